@@ -1,7 +1,6 @@
 mod models;
 
 use models::{FieldAttributeBuilder, TypeAttributeBuilder};
-use quote::quote;
 use syn::{Data, DeriveInput, Meta};
 
 use super::TraitHandler;
